@@ -40,6 +40,14 @@ class Opaque:
         return f"<opaque {self.label}>"
 
 
+class _Break(Exception):
+    pass
+
+
+class _Continue(Exception):
+    pass
+
+
 class Evaluator:
     def __init__(
         self,
@@ -55,6 +63,8 @@ class Evaluator:
         self.on_subscript = on_subscript
         self.on_store = on_store
         self.trace: List[Any] = []
+        self.loops = False  # interpret for-loops over concrete iterables (opt-in)
+        self.with_binds_value = False  # interpret ``with X as m`` as ``m = X`` (opt-in)
 
     # ------------------------------------------------------------ expressions
     def eval(self, e: ast.AST) -> Any:
@@ -422,6 +432,46 @@ class Evaluator:
             raise EvalRaise(name, s)
         elif isinstance(s, ast.Pass):
             pass
+        elif isinstance(s, ast.For) and self.loops:
+            it = self.eval(s.iter)
+            if isinstance(it, Opaque):
+                raise Unknown(f"loop over an opaque iterable: {ast.unparse(s.iter)[:60]}")
+            try:
+                items = list(it)
+            except TypeError:
+                raise Unknown("loop over a non-iterable")
+            broke = False
+            for x in items:
+                self.assign(s.target, x)
+                try:
+                    self.run(s.body)
+                except _Break:
+                    broke = True
+                    break
+                except _Continue:
+                    continue
+            if not broke:
+                self.run(s.orelse)
+        elif isinstance(s, ast.Break) and self.loops:
+            raise _Break()
+        elif isinstance(s, ast.Continue) and self.loops:
+            raise _Continue()
+        elif isinstance(s, ast.With) and self.with_binds_value:
+            # ``with X as m`` binds m to X itself (true for cobra.Model, whose __enter__ returns self);
+            # only interpreters that model the context object enable this
+            entered = []
+            try:
+                for item in s.items:
+                    v = self.eval(item.context_expr)
+                    if getattr(v, "_absint_context", False):
+                        v = v._absint_enter()
+                        entered.append(v)
+                    if item.optional_vars is not None:
+                        self.assign(item.optional_vars, v)
+                self.run(s.body)
+            finally:
+                for v in reversed(entered):
+                    v._absint_exit()
         else:
             raise Unknown(f"unsupported statement {s.__class__.__name__}")
 
